@@ -26,6 +26,7 @@ import (
 	"fmt"
 	"io"
 	"net"
+	"runtime"
 	"sync"
 	"time"
 
@@ -340,4 +341,140 @@ func (s *Server) EnableCrossNode() (*CrossNode, error) {
 		return &CrossNode{Addr: addr, Listener: l, Manager: mgr}, nil
 	}
 	return nil, fmt.Errorf("srvkit: no free port for the cross-node listener: %v", lastErr)
+}
+
+// ---------------------------------------------------------------------------------------------
+// slow mapping store (added for C04 round 3)
+
+// ExpireAt sets the mapping's expiry to t (UpdatePortMapping): the boundary of IsExpired.
+func (t *Tunnels) ExpireAt(mappingID string, at time.Time) error {
+	m, err := t.Mappings.GetPortMapping(mappingID)
+	if err != nil {
+		return err
+	}
+	m.ExpiresAt = &at
+	return t.Mappings.UpdatePortMapping(m)
+}
+
+// StoredValid reads the mapping back from the store and reports PortMapping.IsValid()
+// (false if the mapping does not exist).
+func (t *Tunnels) StoredValid(mappingID string) bool {
+	m, err := t.Mappings.GetPortMapping(mappingID)
+	return err == nil && m != nil && m.IsValid()
+}
+
+// WriteGate stands for a slow mapping store: once armed, the next whole-record write
+// (UpdatePortMapping) that the connection-code service issues - RecordMappingUsage's write-back,
+// RevokeMapping's update - parks until Release. It is an environment seam (the store is
+// replaced, not the code): the caller's read has already happened when it parks.
+type WriteGate struct {
+	mu      sync.Mutex
+	armed   bool
+	hit     chan struct{} // closed when a write parked
+	release chan struct{}
+	done    chan struct{} // closed when the parked write has been stored
+	goid    int64         // goroutine that issued the parked write
+}
+
+// Arm makes the next UpdatePortMapping park.
+func (g *WriteGate) Arm() {
+	g.mu.Lock()
+	defer g.mu.Unlock()
+	g.armed, g.hit, g.release, g.done, g.goid = true, make(chan struct{}), make(chan struct{}), make(chan struct{}), 0
+}
+
+// Hit is closed when a write has parked at the gate (nil channel if never armed).
+func (g *WriteGate) Hit() <-chan struct{} { g.mu.Lock(); defer g.mu.Unlock(); return g.hit }
+
+// Parked reports whether a write is parked now and which goroutine issued it.
+func (g *WriteGate) Parked() (bool, int64) {
+	g.mu.Lock()
+	defer g.mu.Unlock()
+	if g.hit == nil {
+		return false, 0
+	}
+	select {
+	case <-g.hit:
+		select {
+		case <-g.done:
+			return false, g.goid
+		default:
+			return true, g.goid
+		}
+	default:
+		return false, 0
+	}
+}
+
+// Release lets the parked write (if any) go on and waits until it has been stored; it also
+// disarms a gate nobody reached.
+func (g *WriteGate) Release() {
+	g.mu.Lock()
+	armed, hit, rel, done := g.armed, g.hit, g.release, g.done
+	g.armed = false
+	g.mu.Unlock()
+	if hit == nil {
+		return
+	}
+	select {
+	case <-hit:
+		select {
+		case <-rel:
+		default:
+			close(rel)
+		}
+		<-done
+	default:
+		_ = armed
+	}
+}
+
+// GoID is the id of the calling goroutine (parsed from runtime.Stack; test-side only).
+func GoID() int64 {
+	var buf [64]byte
+	n := runtime.Stack(buf[:], false)
+	var id int64
+	for _, c := range buf[len("goroutine "):n] {
+		if c < '0' || c > '9' {
+			break
+		}
+		id = id*10 + int64(c-'0')
+	}
+	return id
+}
+
+type gatedMappings struct {
+	services.PortMappingService
+	g *WriteGate
+}
+
+func (m *gatedMappings) UpdatePortMapping(pm *models.PortMapping) error {
+	g := m.g
+	g.mu.Lock()
+	if !g.armed {
+		g.mu.Unlock()
+		return m.PortMappingService.UpdatePortMapping(pm)
+	}
+	g.armed = false
+	g.goid = GoID()
+	hit, rel, done := g.hit, g.release, g.done
+	g.mu.Unlock()
+	close(hit)
+	<-rel
+	err := m.PortMappingService.UpdatePortMapping(pm)
+	close(done)
+	return err
+}
+
+// EnableTunnelsSlowStore is EnableTunnels with the connection-code service talking to the port
+// mapping service through a WriteGate (Tunnels.Mappings stays the direct service).
+func (s *Server) EnableTunnelsSlowStore() (*Tunnels, *WriteGate) {
+	g := &WriteGate{}
+	connCodeRepo := repos.NewConnectionCodeRepository(s.Repo)
+	pms := s.Cloud.GetPortMappingService()
+	pmRepo := repos.NewPortMappingRepo(s.Repo)
+	cc := services.NewConnectionCodeService(connCodeRepo, &gatedMappings{PortMappingService: pms, g: g}, pmRepo, nil, s.Ctx)
+	h := server.NewServerTunnelHandler(s.Cloud, cc)
+	s.SM.SetTunnelHandler(h)
+	return &Tunnels{S: s, ConnCodes: cc, Handler: h, Mappings: pms}, g
 }
